@@ -10,6 +10,8 @@ import GormModel.Model.SchemaCache
 import GormModel.Lemmas.SchemaCache
 import GormModel.Lemmas.SharedWrites
 import GormModel.Lemmas.WhereSwap
+import GormModel.Lemmas.SharedCell
+import GormModel.Lemmas.SharedConfig
 namespace Gorm
 open Gorm.SchemaCache
 
@@ -142,6 +144,67 @@ theorem C07_where_build_current_tree :
   | true =>
     refine Or.inr ⟨rfl, ?_, fun es he => writesOf_nil_of_head _ es he⟩
     simp only [writes, h]; decide
+
+
+/-! ### handle-wide shared state (round 2): the Config behind every handle, locks and the maps they guard
+
+  Regenerated tables (Lemmas.SharedConfig, `decide`d): `C07_config_written_only_privately`, `C07_scan_logger_swap_private`,
+  `C07_lock_guards_its_map`, `C07_pool_new_shares_only_field_descriptor`.  The two transition systems below say what those
+  structural facts buy under ARBITRARY schedules, and what is lost without them. -/
+
+open Gorm.SharedCell in
+/-- A save / replace / restore protocol that runs on a PRIVATE copy never writes the shared cell: whatever the number of
+  goroutines and the schedule, the handle keeps its logger (and no other goroutine ever observes a recorder). -/
+theorem C07_swap_on_copy_keeps_shared_cell (s : St) (sched : List Nat) : (run false s sched).cell = s.cell :=
+  run_private_cell s sched
+
+open Gorm.SharedCell in
+/-- The same protocol IN PLACE is only correct without overlap: after any schedule in which every goroutine's two steps are
+  adjacent, the cell holds the handle's own value again … -/
+theorem C07_swap_in_place_serial_restores (ts : List Nat) : (run true init (serialSched ts)).cell = 0 :=
+  (quiet_serial init ts quiet_init).1
+
+open Gorm.SharedCell in
+/-- … but two overlapping executions (goroutine 0 enters first and leaves first) leave goroutine 0's throw-away recorder
+  installed for good, and in between goroutine 0 sees goroutine 1's recorder. -/
+theorem C07_swap_in_place_overlap_counterexample :
+    (run true init [0, 1, 0, 1]).cell = 1 ∧ (run true init [0, 1]).cell = 2 := by decide
+
+open Gorm.SharedCell in
+/-- WHAT HOLDS FOR THE CURRENT SOURCE TREE (decided by the regenerated fact): DB.Scan swaps on a private Config and the
+  shared logger is constant under every schedule — or it swaps in place and the overlap counterexample applies. -/
+theorem C07_scan_logger_current_tree :
+    (scanSwapsInPlace = false ∧ ∀ (s : St) (sched : List Nat), (run scanSwapsInPlace s sched).cell = s.cell) ∨
+    (scanSwapsInPlace = true ∧ (run scanSwapsInPlace init [0, 1, 0, 1]).cell = 1) := by
+  cases h : scanSwapsInPlace with
+  | false => exact Or.inl ⟨rfl, fun s sched => run_private_cell s sched⟩
+  | true => exact Or.inr ⟨rfl, by decide⟩
+
+open Gorm.LockMap in
+/-- Mutual exclusion per map: if values that share a map share the lock (`Guarded`, what `C07_lock_guards_its_map` establishes
+  at every construction site), then under every schedule no two goroutines are inside their critical sections on the same
+  map at the same time. -/
+theorem C07_guarded_map_exclusive (acc : Nat → Acc) (hg : Guarded acc) (sched : List Nat) (t1 t2 : Nat) (hne : t1 ≠ t2)
+    (h1 : (run acc init sched).inCS t1 = true) (h2 : (run acc init sched).inCS t2 = true) : (acc t1).map ≠ (acc t2).map := by
+  intro hm
+  have hi := inv_run acc init sched (inv_init acc)
+  have e1 := hi t1 h1
+  have e2 := hi t2 h2
+  rw [hg t1 t2 hm, e2] at e1
+  exact hne (Option.some.inj e1).symm
+
+open Gorm.LockMap in
+/-- Without the discipline (same map, a fresh lock per value) two goroutines are in the map at once after two steps. -/
+theorem C07_unguarded_map_counterexample :
+    let acc : Nat → Acc := fun t => ⟨t, 7⟩
+    (run acc init [0, 1]).inCS 0 = true ∧ (run acc init [0, 1]).inCS 1 = true ∧ (acc 0).map = (acc 1).map := by decide
+
+open Gorm.LockMap in
+/-- non-vacuity of `Guarded`: three goroutines, two maps, one lock per map; goroutines 0 and 2 (different maps) do overlap -/
+example : Guarded (fun t => ⟨t % 2, t % 2⟩) ∧
+    (run (fun t => ⟨t % 2, t % 2⟩) init [0, 1, 2]).inCS 0 = true ∧ (run (fun t => ⟨t % 2, t % 2⟩) init [0, 1, 2]).inCS 1 = true ∧
+    (run (fun t => ⟨t % 2, t % 2⟩) init [0, 1, 2]).inCS 2 = false := by
+  refine ⟨fun t1 t2 h => h, ?_, ?_, ?_⟩ <;> decide
 
 /-- a model whose only relation field is invalid -/
 def scCfgBad : Cfg := [[⟨0, false, true⟩]]
